@@ -74,7 +74,7 @@ EndEv ==
                                            <<"NoDup", NoDupOn(ohanded)>>,
                                            <<"NoPanic", Line.panic = "">>,
                                            <<"NoDeadlock", ~Line.hung>>} : ~mm[2]}}
-         explained == ohanded = handed /\ ostarted = started /\ osent = SentOn /\ Line.panic = "" /\ ~Line.hung
+         explained == Terminal /\ ohanded = handed /\ ostarted = started /\ osent = SentOn /\ Line.panic = "" /\ ~Line.hung
          devs == (IF Stranded THEN {"stranded"} ELSE {}) \cup (IF Orphaned THEN {"orphan"} ELSE {})
                  \cup (IF devOvertake THEN {"overtake"} ELSE {})
                  \cup (IF devSweep THEN {"fresh-buffer-swept"} ELSE {})
